@@ -71,6 +71,10 @@ type xdsClient struct {
 	streams   int
 	nodeSent  bool
 
+	// names answered (resource sent or, for delta, removed) per type on the current stream
+	answered map[string]map[string]struct{}
+	inst     *wisInstance
+
 	// behaviour knobs
 	nackNext map[string]bool
 	// derive dependent subscriptions from root contents (EDS from CDS, RDS from LDS)
@@ -227,9 +231,36 @@ func (c *xdsClient) enqueue(m proto.Message) { c.outq = append(c.outq, m) }
 
 // startStream queues what the client sends on a new stream: a request per root type, and (reconnect)
 // per dependent type it still has names for, carrying the retained version, nonce and names.
+func (c *xdsClient) markAnswered(t string, names ...string) {
+	if c.answered[t] == nil {
+		c.answered[t] = map[string]struct{}{}
+	}
+	for _, n := range names {
+		c.answered[t][n] = struct{}{}
+	}
+}
+
+// unanswered returns the names of non-wildcard subscriptions requested on this stream that were never answered.
+func (c *xdsClient) unanswered() []string {
+	var out []string
+	for t, s := range c.sub {
+		if s.wildcard || !s.requested {
+			continue
+		}
+		for n := range s.names {
+			if _, ok := c.answered[t][n]; !ok {
+				out = append(out, shortType(t)+"/"+n)
+			}
+		}
+	}
+	sort.Strings(out)
+	return out
+}
+
 func (c *xdsClient) startStream(permuteDeps bool) {
 	c.outq = nil
 	c.nodeSent = false
+	c.answered = map[string]map[string]struct{}{}
 	for _, s := range c.sub {
 		s.requested = false
 		s.rejected = false
@@ -315,6 +346,7 @@ func (c *xdsClient) onSotwResponse(step int, resp *discovery.DiscoveryResponse) 
 		n := resourceName(t, a)
 		rs = append(rs, nr{n, a.Value})
 		ev.names = append(ev.names, n)
+		c.markAnswered(t, n)
 	}
 	if c.nackNext[t] {
 		delete(c.nackNext, t)
@@ -417,7 +449,9 @@ func (c *xdsClient) onDeltaResponse(step int, resp *discovery.DeltaDiscoveryResp
 	ev := recvEvent{step: step, typeURL: t, nonce: resp.Nonce, version: resp.SystemVersionInfo, removed: append([]string(nil), resp.RemovedResources...)}
 	for _, r := range resp.Resources {
 		ev.names = append(ev.names, r.Name)
+		c.markAnswered(t, r.Name)
 	}
+	c.markAnswered(t, resp.RemovedResources...)
 	if c.nackNext[t] {
 		delete(c.nackNext, t)
 		s.rejected = true
